@@ -202,7 +202,7 @@ func NewWorld(sp plan.Sched, probes *Probes) *World {
 	w.join = make(chan struct{}, 64)
 	w.max = sp.MaxSteps
 	if w.max == 0 {
-		w.max = 400000
+		w.max = 1500000
 	}
 	if sp.Policy == "pct" {
 		d := sp.Depth
